@@ -6,8 +6,8 @@
    read in the source on this run): `C14_source_is_model` re-proves on every run that these say what the
    fixed model says, and Proofs/ChargeSrc.v transfers every theorem. *)
 From Coq Require Import ZArith QArith Qround List Bool Lia ZifyBool.
-From PyxelV Require Import Model.Charge Proofs.ChargeLemmas Proofs.ChargeRefine Proofs.ChargeIdeal
-  Proofs.ChargeBinning Proofs.ChargeSrc.
+From PyxelV Require Import Model.Charge Model.ChargeHeap Proofs.ChargeLemmas Proofs.ChargeRefine Proofs.ChargeIdeal
+  Proofs.ChargeBinning Proofs.ChargeSrc Proofs.ChargeHeap.
 From PyxelGen Require Import Gen_C14.
 Import ListNotations.
 Open Scope Q_scope.
@@ -218,3 +218,134 @@ Example C14_removal_nonvacuous :
   read_afterP src g11 [AddArray [[2]]; RemoveAll] = OArr [[2]] /\
   removal_ids (Remove [0%Z; 3%Z]) = Some [0%Z; 3%Z].
 Proof. vm_compute. repeat split. Qed.
+
+(* ------------------------------------------------------------------------------------------
+   (5) Object identity (C14-F7, repaired; the class of seeded/C14-m4).  numpy and pandas pass arrays and
+   DataFrames BY REFERENCE.  Model/ChargeHeap.v runs the same container on a small heap: `Charge._array` is a
+   reference, `add_charge_array` receives the caller's array OBJECT, the reads hand out array objects, and the
+   caller may at any time overwrite an array it holds (HWrite), add the same object again (HAdd), modify a
+   DataFrame it added (HWriteDf).  `hsrc` says what the source does with these objects on this run:
+   accumulate in place into the stored array / build a new one / bind `self._array` to the argument; what
+   `.array`, `np.asarray(charge)` and `to_xarray` return; whether any method binds `self._array` / `self._frame`
+   to, or writes into, a parameter.  C14_heap_source_is_model re-proves on every run that the container keeps no
+   reference to anything the caller owns, writes into nothing the caller owns, and gives xarray a copy. *)
+Theorem C14_heap_source_is_model : hparams_ok hsrc.
+Proof.
+  unfold hparams_ok, hsrc; cbn [hp_add hp_writes_arg hp_xr_copies hp_df_adopts hp_binds_param].
+  repeat split; first [reflexivity | discriminate].
+Qed.
+Print Assumptions C14_heap_source_is_model.
+
+(* For EVERY sequence of container operations and caller-side mutations in which the caller only writes into what
+   it owns (its own arrays and DataFrames, the copies to_xarray gave it -- `disciplined`; it may re-add the same
+   object any number of times and overwrite it between and after the additions), every observation -- each
+   returned value, the frame after each op, and the final read -- is that of the BY-VALUE history `by_value`, in
+   which an addition contributes the value its argument held at the time of the call and the caller's mutations
+   do not occur at all. *)
+Theorem C14_caller_mutations_invisible :
+  forall g hops, disciplined hops = true ->
+    hread_after hsrc src g hops = read_afterP src g (by_value hops) /\
+    (map (fun v : hview => (fst (fst v), snd (fst v))) (hrun hsrc src g (Some (hinit g)) hops)
+      = runP src g (Some (init g)) (by_value hops)).
+Proof.
+  intros g hops Hd. split.
+  - exact (heap_read_by_value hsrc src C14_heap_source_is_model g hops Hd).
+  - exact (heap_trace_by_value hsrc src C14_heap_source_is_model g hops Hd).
+Qed.
+Print Assumptions C14_caller_mutations_invisible.
+
+(* ... hence the accumulator (and the ledger, with removals) over op sequences that include caller-side mutations *)
+Theorem C14_heap_refines_accumulator :
+  forall g hops, geom_ok g = true -> disciplined hops = true -> forallb op_ok_anywhere (by_value hops) = true ->
+  exists m, hread_after hsrc src g hops = OArr m /\ Shape (g_rows g) (g_cols g) m /\
+    forall i j, (i < g_rows g)%nat -> (j < g_cols g)%nat -> mget m i j == spec_acc g (by_value hops) i j.
+Proof.
+  intros g hops Hg Hd Hok. rewrite (heap_read_by_value hsrc src C14_heap_source_is_model g hops Hd).
+  exact (C14_refines_accumulator g (by_value hops) Hg Hok).
+Qed.
+Print Assumptions C14_heap_refines_accumulator.
+
+Theorem C14_heap_refines_ledger :
+  forall g hops, geom_ok g = true -> disciplined hops = true -> forallb op_arrays_nonneg (by_value hops) = true ->
+  exists m, hread_after hsrc src g hops = OArr m /\ Shape (g_rows g) (g_cols g) m /\
+    forall i j, (i < g_rows g)%nat -> (j < g_cols g)%nat -> mget m i j == spec_ledger g (by_value hops) i j.
+Proof.
+  intros g hops Hg Hd Hok. rewrite (heap_read_by_value hsrc src C14_heap_source_is_model g hops Hd).
+  exact (C14_refines_ledger g (by_value hops) Hg Hok).
+Qed.
+Print Assumptions C14_heap_refines_ledger.
+
+(* ... and the container never writes into the caller's arrays and DataFrames: after any such sequence they hold
+   exactly what the CALLER last put there (caller_mem is computed from the caller's own HNew / HWrite / HNewDf /
+   HWriteDf operations alone). *)
+Theorem C14_caller_memory_untouched :
+  forall g hops hs, disciplined hops = true -> hexec hsrc src g (Some (hinit g)) hops = Some hs ->
+    (h_args hs, h_dfs hs) = caller_mem hops.
+Proof. intros g hops hs. exact (caller_memory_untouched hsrc src C14_heap_source_is_model g hops hs). Qed.
+Print Assumptions C14_caller_memory_untouched.
+
+(* ... and an array handed out by to_xarray is a SNAPSHOT: it keeps its content across every further operation of the
+   container and every caller write to any other object; when the caller overwrites it, it holds what the caller
+   wrote and every other to_xarray result is untouched.  (hs = any state reachable by such a caller; r = the object
+   returned by the j-th read, a to_xarray read.) *)
+Theorem C14_xarray_result_is_a_snapshot :
+  forall g hops o hs hs' j r,
+    disciplined (hops ++ [o]) = true -> writes_result o = false ->
+    hexec hsrc src g (Some (hinit g)) hops = Some hs -> fst (hstep hsrc src g hs o) = Some hs' ->
+    nth_error (h_res hs) j = Some (RkXr, r) ->
+    nth_error (h_res hs') j = Some (RkXr, r) /\ deref hs' r = deref hs r /\ deref hs r <> None.
+Proof. exact (xarray_result_is_a_snapshot hsrc src C14_heap_source_is_model). Qed.
+Print Assumptions C14_xarray_result_is_a_snapshot.
+
+Theorem C14_xarray_result_written_by_caller :
+  forall g hops j' a hs j r,
+    disciplined (hops ++ [HWrite (HRes j') a]) = true ->
+    hexec hsrc src g (Some (hinit g)) hops = Some hs ->
+    nth_error (h_res hs) j = Some (RkXr, r) ->
+    exists hs', fst (hstep hsrc src g hs (HWrite (HRes j') a)) = Some hs' /\ h_res hs' = h_res hs /\
+      deref hs' r = if (j =? j')%nat then Some a else deref hs r.
+Proof. exact (xarray_result_written_by_caller hsrc src C14_heap_source_is_model). Qed.
+Print Assumptions C14_xarray_result_written_by_caller.
+
+Definition hops_alias : list hop :=
+  [HNew [[1;0;2];[0;3;0]]; HAdd (HArg 0); HAdd (HArg 0); HRead RkXr; HWrite (HArg 0) [[0;0;0];[0;0;8]];
+   HAdd (HArg 0); HWrite (HRes 0) [[9;9;9];[9;9;9]]; HRead RkArray; HNewDf [K 5 1 4]; HAddDf 0;
+   HWriteDf 0 [K 500 1 4]; HRead RkNp; HRemove [0%Z]; HWrite (HArg 0) [[7;7;7];[7;7;7]]].
+Definition adopting : heapparams :=
+  {| hp_add := AddAdopt; hp_writes_arg := false; hp_array_exposes := true; hp_np_exposes := true;
+     hp_xr_copies := true; hp_df_adopts := false; hp_binds_param := false;
+     hp_reset_fresh := true; hp_remove_fresh := true; hp_rebuild_fresh := true |}.
+Definition in_place : heapparams :=
+  {| hp_add := AddInPlace; hp_writes_arg := false; hp_array_exposes := true; hp_np_exposes := true;
+     hp_xr_copies := true; hp_df_adopts := false; hp_binds_param := false;
+     hp_reset_fresh := false; hp_remove_fresh := false; hp_rebuild_fresh := false |}.
+(* non-vacuity: a sequence that re-adds one object, overwrites it between and after the additions, scribbles over a
+   to_xarray result and over an added DataFrame is disciplined and reads the by-value sums; the hypothesis is not
+   trivially true (a container binding `self._array` to its argument is rejected) and it is needed: with such a
+   container the same array object added three times reads 4x, and the caller's array is overwritten *)
+Example C14_heap_nonvacuous :
+  disciplined hops_alias = true /\
+  by_value hops_alias =
+    [ReadFrame; AddArray [[1;0;2];[0;3;0]]; AddArray [[1;0;2];[0;3;0]]; Read; ReadFrame; AddArray [[0;0;0];[0;0;8]];
+     ReadFrame; Read; ReadFrame; AddClusters [K 5 1 4]; ReadFrame; Read; Remove [0%Z]; ReadFrame] /\
+  hread_after hsrc src g23 (firstn 8 hops_alias) = OArr [[2;0;4];[0;6;8]] /\
+  hread_after hsrc src g23 hops_alias = OArr [[0;5;4];[0;6;8]] /\
+  hparams_ok std_hparams /\ ~ hparams_ok adopting /\
+  hread_after adopting src g11 [HNew [[1]]; HAdd (HArg 0); HAdd (HArg 0); HAdd (HArg 0)] = OArr [[4]] /\
+  hread_after hsrc src g11 [HNew [[1]]; HAdd (HArg 0); HAdd (HArg 0); HAdd (HArg 0)] = OArr [[3]] /\
+  option_map h_args (hexec adopting src g11 (Some (hinit g11)) [HNew [[1]]; HAdd (HArg 0); HAdd (HArg 0)]) = Some [[[2]]] /\
+  disciplined [HRead RkArray; HWrite (HRes 0) [[5]]] = false /\
+  (* a to_xarray result survives additions, a reset and the caller's writes elsewhere; a view from .array does not *)
+  option_map (xr_view) (hexec hsrc src g11 (Some (hinit g11))
+     [HNew [[1]]; HAdd (HArg 0); HRead RkXr; HAdd (HArg 0); HReset; HWrite (HArg 0) [[9]]; HCl [K 2 (1#2) (1#2)]; HRead RkXr])
+    = Some [[[1]]; [[2]]] /\
+  writes_result (HWrite (HRes 0) [[5]]) = true /\ writes_result (HAdd (HArg 0)) = false /\
+  (* a container that zeroes / rebuilds its array in place is accepted too, and differs only in what an old `.array`
+     view shows: written after a reset, the view still is the stored array *)
+  hparams_ok in_place /\
+  hread_after in_place src g11 [HRead RkArray; HReset; HWrite (HRes 0) [[5]]] = OArr [[5]] /\
+  hread_after std_hparams src g11 [HRead RkArray; HReset; HWrite (HRes 0) [[5]]] = OArr [[0]].
+Proof.
+  repeat match goal with |- _ /\ _ => split end; try (vm_compute; reflexivity); try exact std_hparams_ok.
+  intros [Hn _]. apply Hn. reflexivity.
+Qed.
